@@ -1182,6 +1182,32 @@ SHAPE_FILES = {
     'CtxGen': [('containers/context.py', 'BagContext', 'reverse'), ('containers/context.py', 'ChainContext', 'reverse'),
                ('containers/context.py', 'IdentityContext', 'reverse'), ('containers/base.py', 'EdgesBag', 'loopback'),
                ('containers/base.py', None, 'function_to_bag')],
+    # the glue around the modelled core: whole classes ('*': every method but __repr__) and module-level functions of the files a property is anchored in
+    'GlueCacheGen': [('layers/cache.py', 'CacheToStorage', '*'), ('layers/cache.py', 'CacheToRam', '*'), ('layers/cache.py', 'CacheToDisk', '*'),
+                     ('layers/cache.py', None, '_normalize_disk_arguments'), ('layers/cache.py', None, '_resolve_serializer'),
+                     ('layers/dynamic.py', 'DynamicConnectLayer', '*'), ('cache/memory.py', 'MemoryCache', '*'), ('cache/disk.py', 'DiskCache', '*')],
+    'GlueChainGen': [('layers/base.py', 'CallableLayer', '*'), ('layers/base.py', 'Instance', '*'), ('layers/base.py', 'Chain', '*'), ('layers/base.py', 'LazyChain', '*'),
+                     ('layers/chain.py', None, 'connect')],
+    'GlueMergeGen': [('layers/merge.py', 'Merge', '*')],
+    'GlueFilterGen': [('layers/filter.py', 'Filter', '*'), ('layers/check_ids.py', 'CheckIds', '*')],
+    'GlueJoinGen': [('layers/join.py', 'Join', '*'), ('layers/join.py', 'JoinContainer', '*'), ('layers/join.py', 'SwitchBranch', '*'), ('layers/join.py', 'SwitchMissing', '*'),
+                    ('layers/join.py', None, '_maybe_to_hash_id'), ('layers/join.py', None, 'to_hash_id'), ('layers/join.py', None, '_chain_edges')],
+    'GlueGroupGen': [('layers/group.py', 'GroupBy', '*'), ('layers/group.py', None, 'to_key')],
+    'GlueSplitGen': [('layers/split.py', 'SplitBase', '*'), ('layers/split.py', None, 'chain_edges'), ('interface/split.py', 'SplitFactory', '*')],
+    'GlueFactoryGen': [('interface/factory.py', 'GraphFactory', '*'), ('interface/factory.py', 'SourceFactory', '*'), ('interface/factory.py', 'TransformFactory', '*'),
+                       ('interface/factory.py', None, 'add_from_mixins'), ('interface/factory.py', None, 'is_detectable'), ('interface/factory.py', None, 'items_to_container'),
+                       ('interface/edges.py', 'FunctionBase', '*'), ('interface/edges.py', 'Function', '*'), ('interface/edges.py', 'FunctionWrapper', '*'),
+                       ('interface/edges.py', 'Inverse', '*'), ('interface/edges.py', 'Positional', '*'), ('interface/edges.py', 'Impure', '*'),
+                       ('interface/metaclasses.py', 'APIMeta', '*'), ('interface/complex_edges.py', 'HashByValue', '*'), ('interface/complex_edges.py', 'CombinedHashByValue', '*'),
+                       ('interface/complex_edges.py', None, 'hash_by_value'), ('interface/nodes.py', 'NodeStorage', '*'), ('interface/utils.py', None, 'replace_annotation')],
+    'GlueHashGen': [('engine/node_hash.py', 'NodeHash', '*'), ('engine/node_hash.py', 'LeafHash', '*'), ('engine/node_hash.py', 'ApplyHash', '*'),
+                    ('engine/node_hash.py', 'GraphHash', '*'), ('engine/node_hash.py', 'CustomHash', '*'), ('engine/edges.py', 'FunctionEdge', '*'),
+                    ('engine/edges.py', 'ConstantEdge', '*'), ('engine/edges.py', 'ComputableHashBase', '*'),
+                    ('interface/external.py', 'External', '*'), ('interface/external.py', 'SimpleHash', '*'), ('interface/external.py', 'SimpleHashEdge', '*'),
+                    ('interface/external.py', None, 'marker_getter')],
+    'GlueGraphGen': [('engine/graph.py', 'Graph', '*'), ('engine/graph.py', None, 'evaluate'), ('engine/graph.py', None, 'compute_hash'),
+                     ('engine/compiler.py', 'GraphCompiler', '*'), ('engine/compiler.py', None, 'find_dependencies'), ('engine/base.py', 'TreeNode', '*')],
+    'GlueColumnsGen': [('layers/columns.py', 'CacheColumns', '*')],
 }
 
 
@@ -1200,6 +1226,18 @@ def gen_shapes(repo, report, only):
             if c is None:
                 fail(path, tree, f'class {cls} not found')
             scope = c.body
+        if fname == '*':
+            # the whole class: bases, class-level assignments and every method but __repr__ (presentation)
+            c2 = _StripProgress().visit(ast.parse(ast.unparse(c)).body[0])
+            c2.body = [x for x in strip_doc(c2.body) if not (isinstance(x, ast.FunctionDef) and x.name == '__repr__')]
+            for x in c2.body:
+                if isinstance(x, ast.FunctionDef):
+                    x.body = strip_doc(x.body) or [ast.Pass()]
+            h = hashlib.sha256(ast.unparse(c2).replace(' ', '').encode()).hexdigest()[:16]
+            report['kernels'].append({'kernel': cls, 'file': rel, 'line': c.lineno, 'sha256_16': sha(src, c)})
+            out.append(f'(* {rel}:{c.lineno} class {cls} *)')
+            out.append(f'Definition shape_class_{cls} : string := "{h}".')
+            continue
         fn = find_func(scope, fname)
         if fn is None:
             fail(path, tree, f'{cls + "." if cls else ""}{fname} not found')
